@@ -217,9 +217,12 @@ fn seek(&mut self, pos: SeekFrom) -> (r: Result<u64, IoError>)
         // seek(Current(d)) with current == None calls self.seek(Current(0)) with current still None.
         pos is Current ==> old(self).cursor_known(),
         
-        // ASSUMPTION (suspected defects S2/S3, NOTES.md): the code adds the offset to an absolute
-        // file position in u64 / i64 without overflow protection.
+        // ASSUMPTION (defect S2, NOTES.md): the code computes `self.start + k` in u64 unprotected.
+        // Without this line `start_arm_add_no_overflow` fails (replay: fileview n=100 a=50 b=80 ops=S-1).
         pos matches SeekFrom::Start(k) ==> old(self).start + k <= u64::MAX,
+        
+        // ASSUMPTION (defect S3, NOTES.md): the code computes `current as i64 + d` in i64 unprotected.
+        // Without this line `current_arm_add_no_overflow` fails (replay: ... ops=S10;C9223372036854775807).
         pos matches SeekFrom::Current(d) ==> old(self).current.unwrap() + d <= i64::MAX,
     ensures
         
@@ -240,7 +243,7 @@ fn seek(&mut self, pos: SeekFrom) -> (r: Result<u64, IoError>)
             SeekFrom::Start(start) => {
 
                 assert(self.start + start <= u64::MAX); 
-                let seek_from = SeekFrom::Start(self.end.min(self.start + start));
+                let seek_from = SeekFrom::Start(self.start + start);
                 match self.file.seek(seek_from) {
                     Ok(new_pos) => {
 
@@ -260,7 +263,7 @@ fn seek(&mut self, pos: SeekFrom) -> (r: Result<u64, IoError>)
                 let end = end.min(0);
 
                 assert(i64::MIN <= (self.end as i64) + end <= i64::MAX); 
-                let new_pos = (self.end as i64) - end;
+                let new_pos = (self.end as i64) + end;
                 match self.file.seek(SeekFrom::Start(new_pos.max(self.start as i64) as u64)) {
                     Ok(new_pos) => {
 
